@@ -194,7 +194,8 @@ pub fn emit(
     let mut oracle = vec![];
     let mut known: BTreeMap<String, u64> = BTreeMap::new();
     for (pos, c) in cases.iter().enumerate() {
-        writeln!(txt, "{}\t{}\t{}", pos, c.index, c.text).unwrap();
+        let clean: String = c.text.chars().map(|ch| if ch.is_control() { '?' } else { ch }).collect();
+        writeln!(txt, "{}\t{}\t{}", pos, c.index, clean).unwrap();
         if c.nontrivial {
             distinct.insert(fnv(&c.key));
         }
